@@ -21,7 +21,23 @@ for sid in sorted(res):
             kind = f"exit {r['exit']}"
         cells.append(f"{key.replace(':', ' ')}: **{kind}**")
     rows.append(f"| {sid} | {first[:110]} | {'; '.join(cells)} |")
-table = "| seed | change (first line of its README) | checks run → outcome |\n|---|---|---|\n" + "\n".join(rows)
+def _kind(r):
+    lines = [l for l in r.get('lines', []) if l.startswith('VIOLATION')]
+    if r['exit'] == 1 and lines:
+        return 'tie' if all('no-failing-input-found' in l for l in lines) else 'oracle'
+    return 'oracle' if r['exit'] == 1 else ('missed' if r['exit'] == 0 else 'other')
+own = {'oracle': 0, 'tie': 0, 'missed': 0, 'other': 0}
+anyk = {'oracle': 0, 'tie': 0, 'missed': 0}
+for sid in sorted(res):
+    prop = sid.split('-')[0]
+    kinds = {k.split(':')[0]: _kind(v) for k, v in res[sid].items()}
+    own[kinds.get(prop, 'other')] += 1
+    best = 'oracle' if 'oracle' in kinds.values() else ('tie' if 'tie' in kinds.values() else 'missed')
+    anyk[best] += 1
+summary = (f"\n\nTotals over {len(res)} seeds — check of the seed's own property (quick tier): {own['oracle']} concrete failing input, "
+           f"{own['tie']} tie only, {own['missed']} missed; counting the checks of other properties that were also run on the "
+           f"seeds missed by their own: {anyk['oracle']} concrete, {anyk['tie']} tie only, {anyk['missed']} missed by every check run.")
+table = "| seed | change (first line of its README) | checks run → outcome |\n|---|---|---|\n" + "\n".join(rows) + summary
 p = os.path.join(V, 'DESIGN.md')
 s = open(p).read()
 s = re.sub(r"<!-- BEGIN GENERATED:seeds -->.*?<!-- END GENERATED:seeds -->",
